@@ -24,7 +24,7 @@ EXPLANATION = (
 def run(tier):
     rep = Report("C05", LEVEL, tier)
     rep.explanation = EXPLANATION
-    rep.not_decided = "that every listed terminal is a valid continuation (correctness of the accepts simulation and of the tables); completeness for canonical LR(1); absence of duplicates"
+    rep.not_decided = "that every listed terminal is a valid continuation (correctness of the tables and of goto/action/simulate_reduce; the simulation loop is checked for its stack discipline only); completeness for canonical LR(1); absence of duplicates"
     rep.trusted = ["rustc MIR", "syn parse of the generator"]
     f = core.Facts(core.ensure_facts())
     sm = SM(f)
@@ -77,6 +77,8 @@ def run(tier):
     rep.ob("generated.filter-terminals-through-accepts", "emit_expected_tokens_from_states_fn (%d templates)" % len(ef), ok,
            "the generated expected_tokens_from_states does not filter TERMINAL through accepts(None, states, Some(index), ..)",
            key="generated-simulation", file="lalrpop/src/lr1/codegen/parse_table.rs", line=ef[0]["line"] if ef else 0)
+    # ---- (b2) the simulation itself keeps a real stack
+    accepts_simulation(rep, gen)
     # ---- (c)
     errorcol.check(rep, f, "errorcol.")
     # ---- (d) sibling rule over templates that build an error with `expected:`
@@ -98,3 +100,59 @@ def run(tier):
                key="expected-not-simulated:%s:%s" % (file.split("/")[-1], fn.split("::")[-1]), file=file, line=uses[0]["line"], fn=fn)
     rep.floor("template functions building an `expected:` field", n, 1)
     return rep
+
+
+def accepts_simulation(rep, gen):
+    """`accepts` decides whether a terminal is a valid continuation by replaying default reductions on the state stack
+    until a shift/accept (true) or an error (false). A chain of reductions can push arbitrarily many states (every empty
+    production pushes without popping), so the replay needs its own copy of the whole stack with pop-n / push: each step of
+    that discipline must be present in the generated text, in this order."""
+    ms = sorted([m for m in gen if m["file"].endswith("lr1/codegen/parse_table.rs") and m["fn"].endswith("::write_accepts_fn")
+                 and not any(g["kind"] == "if" and "DEBUG" in g["cond"] for g in m["guards"])], key=lambda m: m["seq"])
+    if not rep.floor("templates of write_accepts_fn", len(ms), 15):
+        return
+    lines = [re.sub(r"·\w+·", "·p·", tu.cooked(m["fmt"])).strip() for m in ms]
+    li = next((i for i, l in enumerate(lines) if re.match(r"^(loop|while\b.*)\s*\{$", l)), None)
+    if li is None:
+        rep.anchor_missing("simulation loop in write_accepts_fn")
+        return
+    pre, body = lines[:li], lines[li:]
+    file, fn = ms[0]["file"], ms[0]["fn"]
+
+    def find(seq, rx, start=0):
+        for i in range(start, len(seq)):
+            mm = re.search(rx, seq[i])
+            if mm:
+                return i, mm
+        return None, None
+    i_copy, m_copy = find(pre, r"let mut ·p·(\w+)(?::[^=]+)? = (?:·p·states\.(?:to_vec|to_owned)\(\)|Vec::from\(·p·states\)|·p·states\.iter\(\)\.(?:copied|cloned)\(\)\.collect)")
+    stack = m_copy.group(1) if m_copy else None
+    rep.ob("accepts.own-copy-of-whole-stack", "write_accepts_fn: %s" % (pre[i_copy] if i_copy is not None else "no copy of `states` before the loop"), stack is not None,
+           "the simulation does not work on its own copy of the whole state stack: it cannot both leave the parser's stack untouched and hold the states that a "
+           "chain of simulated reductions pushes", key="accepts-sim:no-stack-copy", file=file, line=ms[0]["line"], fn=fn)
+    if stack is None:
+        return
+    S = "·p·" + re.escape(stack)
+    i_err, _ = find(pre, S + r"\.(extend|push)\(·p·error_state")
+    rep.ob("accepts.error-state-on-top", "write_accepts_fn: %s" % (pre[i_err] if i_err is not None else "-"), i_err is not None and i_err > i_copy,
+           "the optional error state is not pushed on the simulated stack", key="accepts-sim:error-state", file=file, line=ms[0]["line"], fn=fn)
+    i_top, _ = find(body, r"let ·p·top = (?:" + S + r"\[·p·states_len - 1\]|\*" + S + r"\.last\(\)\.unwrap\(\))")
+    i_false, _ = find(body, r"if ·p·action == 0 \{ return false; \}")
+    i_true, _ = find(body, r"if ·p·action > 0 \{ return true; \}")
+    i_red, _ = find(body, r"·p·simulate_reduce\(-\(·p·action \+ 1\)")
+    rep.ob("accepts.decision", "top read at %s, error->false at %s, shift->true at %s, reduce simulated at %s" % (i_top, i_false, i_true, i_red),
+           None not in (i_top, i_false, i_true, i_red) and i_top < i_false < i_red and i_top < i_true < i_red,
+           "the simulation does not read the action of the top state, answer false on error / true on shift, and replay reductions otherwise",
+           key="accepts-sim:decision", file=file, line=ms[0]["line"], fn=fn)
+    start = i_red or 0
+    i_dec, _ = find(body, r"·p·states_len -= ·p·to_pop;", start)
+    i_pop, _ = find(body, S + r"\.(?:truncate\(·p·states_len\)|drain\(·p·states_len\.\.\)|split_off\(·p·states_len\))", start)
+    rep.ob("accepts.pop-states-to-pop", "after simulate_reduce: %s ; %s" % (body[i_dec] if i_dec is not None else "-", body[i_pop] if i_pop is not None else "-"),
+           i_dec is not None and i_pop is not None and i_dec < i_pop,
+           "a simulated reduction does not pop exactly `states_to_pop` states from the simulated stack", key="accepts-sim:pop", file=file, line=ms[0]["line"], fn=fn)
+    i_top2, _ = find(body, r"let ·p·top = " + S + r"\[·p·states_len - 1\];", (i_pop or start) + 1)
+    i_goto, _ = find(body, r"let ·p·next_state = ·p·goto\(·p·top, ·p·nt\);", (i_top2 or start))
+    i_push, _ = find(body, S + r"\.push\(·p·next_state\);", (i_goto or start))
+    rep.ob("accepts.push-goto-state", "new top at %s, goto at %s, push at %s" % (i_top2, i_goto, i_push), None not in (i_top2, i_goto, i_push) and i_top2 < i_goto < i_push,
+           "after popping, the goto state of the exposed top is not pushed on the simulated stack: a following reduction sees the wrong states (a single slot "
+           "cannot hold the two states that `reduce; reduce-empty` pushes)", key="accepts-sim:push", file=file, line=ms[0]["line"], fn=fn)
